@@ -4389,3 +4389,45 @@ def pan17(ctx):
         raise AnchorMissing("PAN-17: %d `if let Some(_) = ...syllables.get_mut(pos.syll_index)` tests found in SubRule (expected >= 4)" % n)
     r.analysed = {"bounds_tests": n, "unchecked_indexers": sorted(p for p, _ in INDEXERS)}
     return r
+
+
+# ---------------------------------------------------------------- FLW-4h: segment-level methods of Syllable leave stress and tone alone
+
+def flw4h(ctx):
+    """A sound change on segments does not touch the prosodic tier. Of the methods of `Syllable`, only apply_syll_mods
+    writes `stress` / `tone`; no other method assigns them, and none replaces the whole syllable (`*self = rebuilt`),
+    which silently resets whatever field the rebuild forgot."""
+    r = RuleResult("FLW-4h", "Syllable's segment-level methods (replace_segment, insert_segment, apply_seg_mods, apply_supras, ...) never assign self.stress / self.tone and never overwrite `*self` as a whole; only apply_syll_mods writes the prosodic fields", floor=6)
+    lib = ctx.lib
+    ALLOWED = {"apply_syll_mods", "new", "default", "clone", "clone_from"}
+    n = 0
+    for b in lib.bodies:
+        if b.in_test_mod() or not b.hir or b.kind == "closure" or not b.path.startswith("asca::syll::Syllable::"):
+            continue
+        name = b.path.rsplit("::", 1)[-1]
+        if name in ALLOWED or "self" not in (b.param_names or [])[:1]:
+            continue
+        n += 1
+        bad = []
+        for x in hirq.walk(b.hir["body"]):
+            if x["e"] not in ("assign", "assignop"):
+                continue
+            l = hirq.strip(x["lhs"])
+            whole = l
+            while isinstance(whole, dict) and whole.get("e") == "unary" and whole.get("op") == "Deref":
+                whole = hirq.strip(whole["a"])
+            if isinstance(whole, dict) and whole.get("e") == "path" and whole.get("local") == "self":
+                bad.append((x, "`*self` is overwritten as a whole"))
+            if l.get("e") == "field" and l["name"] in ("stress", "tone"):
+                base = hirq.strip(l["a"])
+                while isinstance(base, dict) and base.get("e") == "unary" and base.get("op") == "Deref":
+                    base = hirq.strip(base["a"])
+                if isinstance(base, dict) and base.get("e") == "path" and base.get("local") == "self":
+                    bad.append((x, "`self.%s` is assigned" % l["name"]))
+        r.inst("Syllable::%s leaves stress and tone alone" % name, fn_loc(b), "ok" if not bad else "report")
+        for x, what in bad[:1]:
+            r.report("FLW-4h|%s" % name, fn_loc(b, x.get("ln")), b.path,
+                     "%s in Syllable::%s, a segment-level operation: the syllable's stress / tone change (or are reset by a rebuild that copies only some fields) although the rule only names segments -- `a > e` on `kaː5.ta` loses the tone 5" % (what, name))
+    if n < 6:
+        raise AnchorMissing("FLW-4h: %d segment-level methods of Syllable examined (expected >= 6)" % n)
+    return r
